@@ -164,12 +164,15 @@ pub trait AOracle {
 
 fn epoch_bytes(ctx: &mut Ctx, utf8: bool) -> Vec<u8> {
     if utf8 {
-        let cands: [&str; 8] = ["", "t", "epoch-1", "2024-W07", "é", "日本語のエポック", "😀", "a\u{0301}b"];
+        // (labels with surrounding whitespace, a NUL, upper case included: whoever normalises the label on one
+        // side only - trim, lower-case, C string - no longer agrees with the clients)
+        let cands: [&str; 16] = ["", "t", "epoch-1", "2024-W07", "é", "日本語のエポック", "😀", "a\u{0301}b", " ", "epoch-1\n", " epoch-1", "epoch-1 ", "\tt", "Epoch-1", "e\u{0}", "x\u{3000}"];
         return ctx.ch.pick(&cands).as_bytes().to_vec();
     }
-    match ctx.ch.draw(7) {
+    match ctx.ch.draw(8) {
         0 => b"t".to_vec(),
         1 => Vec::new(),
+        7 => ctx.ch.pick(&[&b" epoch-1\n"[..], &b" "[..], &b"epoch-1\0"[..], &b"\0"[..], &b"Epoch-1"[..]]).to_vec(),
         2 => ctx.ch.bytes(1),
         3 => ctx.ch.bytes(8),
         4 => ctx.ch.bytes(32),
